@@ -38,7 +38,7 @@ class Cls : gt::Base<ns::Holder<TT>, TT> {
   pair<TT, This> both(TT* p, const This& other);
   static This Make(TT@ raw);
   template<UU = {double, ns::C}, VV = {int, ns::A}>
-  void tm(const UU& u, TT t, VV w);
+  void tm(const UU& u, TT t, VV w, int lim = TTL_MAX, int k = kVV, double z = xUUx + TTraits::one(), string s = "TT UU VV");
   template<UU = {size_t, ns::B}, VV = {ns::C, double}>
   static This Build(UU u, const VV& w);
   TT prop;
@@ -51,7 +51,7 @@ template<TT = {%s}>
 TT fun(const TT& a, std::vector<TT::Value> v);
 }
 """
-IN_USE = ["VV", "w", "Build", "key", "Holder", "Traits", "Scalar", "scal", "sc", "sv", "Cls", "Base", "Mode", "M1", "M2", "A", "B", "C", "ns", "gt", "This", "Value", "std", "vector", "map", "int", "pair", "UU", "double",
+IN_USE = ["lim", "k", "z", "s", "TTL_MAX", "kVV", "xUUx", "TTraits", "one", "string", "VV", "w", "Build", "key", "Holder", "Traits", "Scalar", "scal", "sc", "sv", "Cls", "Base", "Mode", "M1", "M2", "A", "B", "C", "ns", "gt", "This", "Value", "std", "vector", "map", "int", "pair", "UU", "double",
           "t", "m", "vs", "mm", "p", "other", "raw", "u", "o", "a", "v", "mode", "value", "both", "Make", "tm", "prop", "fun", "void", "const",
           "operator", "static", "template", "class", "enum", "bool", "char", "size_t", "float", "typedef", "virtual", "namespace", "unsigned"]
 INSTS = ["ns::A", "ns::B", "ns::C"]
